@@ -155,6 +155,11 @@ class ExternalVariableCollector(NodeVisitor):
         self.funcnames.add(node.name)
         self.generic_visit(node)
 
+    # The names of nested async functions and classes are bound by the
+    # function as well: they are not external variables
+    visit_AsyncFunctionDef = visit_FunctionDef
+    visit_ClassDef = visit_FunctionDef
+
     def visit_Name(self, node):
         if isinstance(node.ctx, ast.Load):
             self.used.add(node.id)
